@@ -178,6 +178,25 @@ def handle (op : String) (a : Json) : P Json := do
     pure <| Json.arr ((showFrames ⟨[], 0⟩ frs).map fun b => Json.mkObj [
       ("patches", Json.arr (b.patches.map fun l => Json.arr (l.map itemJ).toArray).toArray),
       ("networks", natJ b.networks)]).toArray
+  | "ops" =>
+    -- a history of renderer operations -> what every render / render_dynamic shows
+    --   {"op":"draw", tree, obstacles, draw_network} | {"op":"clear","keep":b} | {"op":"render","keep":b} | {"op":"render_dynamic"}
+    let mut ops : List ROp := []
+    for j in ← asArr (← field a "ops") do
+      match ← getStr j "op" with
+      | "draw" =>
+        match flagsOf (← grpOfJson (← field j "tree")) with
+        | none => throw "ops: flagsOf failed"
+        | some f =>
+          let fr : Frame := ⟨f, ← getList obstOfJson j "obstacles", ← getBool j "draw_network", false⟩
+          ops := ops ++ [.draw fr]
+      | "clear" => ops := ops ++ [.clear (← getBool j "keep")]
+      | "render" => ops := ops ++ [.render (← getBool j "keep")]
+      | "render_dynamic" => ops := ops ++ [.renderDynamic]
+      | o => throw s!"ops: unknown op {o}"
+    pure <| Json.arr ((runOps ⟨[], 0⟩ ops).map fun b => Json.mkObj [
+      ("patches", Json.arr (b.patches.map fun l => Json.arr (l.map itemJ).toArray).toArray),
+      ("networks", natJ b.networks)]).toArray
   | "net" =>
     let ls ← getList (fun j => do pure ({ id := ← getInt j "id", leftBorder := ← getBool j "left_border" } : LaneletInfo)) a "lanelets"
     let f : NetFlags := { drawIds := ← optIds a "draw_ids", borderVertices := ← getBool a "border_vertices",
